@@ -9,7 +9,8 @@
 #include <stdint.h>
 #include <string.h>
 #define VB_GHOST_AbstractFile \
-    uint8_t *buf; int64_t cap; int64_t g; int64_t p; int64_t fileSize; int rdstate; int64_t gcount; int64_t hdr_end;
+    uint8_t *buf; int64_t cap; int64_t g; int64_t p; int64_t fileSize; int rdstate; int64_t gcount; int64_t hdr_end; \
+    int64_t ovl_off; int64_t ovl_end; uint64_t ovl_val; int nskip; int64_t skip_lo[4]; int64_t skip_hi[4];   /* optional 8-byte overlay window on the read side (C02) */
 #define VB_MARK_HDR_END(os) ((os)->hdr_end = (os)->p)
 #ifdef VBLF_CPROVER
 #define VB_AF_CHECK(c, msg) __CPROVER_assert(c, msg)
